@@ -1,6 +1,6 @@
 (* C09 — distinct selections never share a Go type; clashes are errors.
    Model: Gen/Convert.v (getType / addType / addFragmentType, selectionsMatch). *)
-From Verif Require Import Base.Str Gen.Gql Gen.Directive Gen.Convert Proofs.ConvertProofs.
+From Verif Require Import Base.Str Gen.Gql Gen.Directive Gen.Convert Proofs.ConvertProofs Proofs.ConvertFuel Proofs.ConvertExt.
 
 (* what "the same selected fields" means for genqlient: the same tree of field names, aliases,
    type conditions and spread names (arguments and directives are documented as not compared) *)
@@ -44,3 +44,51 @@ Print Assumptions C09_fragment_types_never_overwrite.
 Theorem C09_typename_vs_fragment_name : w_result = Err ECONFLICT.
 Proof. exact typename_equal_to_fragment_name_is_a_conflict. Qed.
 Print Assumptions C09_typename_vs_fragment_name.
+
+(* ================= "adding an operation never changes the Go API of another" ================= *)
+
+(* no step of the converter -- the four mutually recursive functions of convert.go, for every
+   schema, configuration, fragment table, source text and fuel -- ever changes or removes a
+   declaration that the type map already holds (the one place that rewrites an entry, the input
+   struct completed after its fields were converted, rewrites the placeholder it registered
+   itself under a name that was absent from the incoming map) *)
+Theorem C09_converter_never_changes_an_existing_declaration :
+  forall sch cfg frags srcs f,
+    (forall src prefix t sels opts Q tm, extends tm (convert_type sch cfg frags srcs f src prefix t sels opts Q tm))
+    /\ (forall src prefix def sels opts Q tm, extends tm (convert_definition sch cfg frags srcs f src prefix def sels opts Q tm))
+    /\ (forall src prefix sels containing Q tm, extends tm (convert_selection_set sch cfg frags srcs f src prefix sels containing Q tm))
+    /\ (forall fr tm, extends tm (convert_named_fragment sch cfg frags srcs f fr tm)).
+Proof. exact convert_extends. Qed.
+Print Assumptions C09_converter_never_changes_an_existing_declaration.
+
+(* at the level of whole runs: when ops1 ++ ops2 generates, ops1 alone generates, and every
+   declaration and every operation entry (name, input type, response type) obtained for ops1 alone
+   is there, unchanged, in the result for ops1 ++ ops2 -- operations converted later (genqlient
+   converts in name order) never change the Go API of the earlier ones; what a LATER operation gets
+   may depend on the earlier ones (shared input types take the options of the first user: open
+   finding F-C09-1), which is why the statement is one-directional *)
+Theorem C09_later_operations_never_change_earlier_declarations :
+  forall sch cfg frags srcs ops1 ops2 tm1 infos1 tm2 infos2,
+    generate_types sch cfg frags srcs ops1 = Ok (tm1, infos1) ->
+    generate_types sch cfg frags srcs (ops1 ++ ops2) = Ok (tm2, infos2) ->
+    (forall n d, assoc n tm1 = Some d -> assoc n tm2 = Some d)
+    /\ (forall i oi, nth_error infos1 i = Some oi -> nth_error infos2 i = Some oi).
+Proof. exact earlier_operation_api_unchanged. Qed.
+Print Assumptions C09_later_operations_never_change_earlier_declarations.
+
+Theorem C09_together_succeeds_only_if_the_prefix_alone_succeeds :
+  forall sch cfg frags srcs ops1 ops2 tm2 infos2,
+    generate_types sch cfg frags srcs (ops1 ++ ops2) = Ok (tm2, infos2) ->
+    exists tm1 infos1, generate_types sch cfg frags srcs ops1 = Ok (tm1, infos1)
+      /\ tm_ext tm1 tm2 /\ exists l, infos2 = infos1 ++ l.
+Proof. exact generate_types_app_extends_FUEL. Qed.
+Print Assumptions C09_together_succeeds_only_if_the_prefix_alone_succeeds.
+
+(* non-vacuity: two operations sharing fragments and a recursive input type both generate *)
+Theorem C09_two_operations_witness :
+  exists tm1 i1 tm2 i2,
+    generate_types t_schema ConvertProofs.w_cfg t_frags [] [t_op] = Ok (tm1, i1)
+    /\ generate_types t_schema ConvertProofs.w_cfg t_frags [] ([t_op] ++ [x_op2]) = Ok (tm2, i2)
+    /\ (length i1 = 1 /\ length i2 = 2 /\ length tm1 < length tm2)%nat.
+Proof. exact x_two_operations_convert. Qed.
+Print Assumptions C09_two_operations_witness.
